@@ -310,6 +310,7 @@ type c12Req struct {
 	JSONResp  bool              `json:"json_response,omitempty"` // the handler is configured with JSONResponse
 	Notif     bool              `json:"notification,omitempty"`  // stateless: the POST carries a notification, not a call
 	Prelude   bool              `json:"prelude,omitempty"`       // the same handler first serves a request that arrived on a non-loopback address (a server listening on 0.0.0.0)
+	NoSID     bool              `json:"no_session_ids,omitempty"` // stateful endpoint whose server suppresses session ids (GetSessionID returns ""): every request is served by an ephemeral session
 	Wrapped   bool              `json:"wrapped,omitempty"`       // the violating message travels as the only element of a JSON array
 }
 
@@ -469,6 +470,9 @@ func genC12Req(r *vh.Rand) c12Req {
 		q.Headers["Mcp-Param-Deep"] = enc(deep + "!")
 		q.Want, q.WantCode = []int{400}, -32020
 	}
+	if q.Endpoint == "stateful" && r.Chance(1, 3) {
+		q.NoSID = true
+	}
 	if q.WantCode == -32020 && r.Chance(1, 4) {
 		// the same violating message as the only element of a JSON array: whatever the server makes of arrays,
 		// the header mismatch must not get past it (any 4xx, nothing dispatched)
@@ -486,7 +490,11 @@ func c12Soundness(c *vh.Case) {
 	var reached atomic.Int64
 	var rmu sync.Mutex
 	var methods []string
-	server := mcp.NewServer(&mcp.Implementation{Name: "s", Version: "1"}, nil)
+	var sopts *mcp.ServerOptions
+	if q.NoSID {
+		sopts = &mcp.ServerOptions{GetSessionID: func() string { return "" }}
+	}
+	server := mcp.NewServer(&mcp.Implementation{Name: "s", Version: "1"}, sopts)
 	schema := json.RawMessage(`{"type":"object","properties":{"a":{"type":"string","x-mcp-header":"A"},"n":{"type":"integer","x-mcp-header":"N"},"b":{"type":"boolean","x-mcp-header":"B"},"nested":{"type":"object","properties":{"deep":{"type":"string","x-mcp-header":"Deep"}}},"o1":{"type":"string","x-mcp-header":"O1"},"o2":{"type":"integer","x-mcp-header":"O2"},"o3":{"type":"string","x-mcp-header":"O3"},"o4":{"type":"boolean","x-mcp-header":"O4"}}}`)
 	server.AddTool(&mcp.Tool{Name: "h", InputSchema: schema}, func(ctx context.Context, req *mcp.CallToolRequest) (*mcp.CallToolResult, error) {
 		return &mcp.CallToolResult{Content: []mcp.Content{&mcp.TextContent{Text: "ok"}}}, nil
